@@ -24,9 +24,9 @@ ASSUMPTIONS = [
 ]
 SHARDS_QUICK = 4
 
-LAYOUTS_2 = ["2N_C", "2N_F", "N2_C", "N2_F", "list", "tuple", "strided", "negstride", "dataframe", "view_of_bigger"]
-LAYOUTS_1 = ["1d", "list", "strided", "negstride", "series_values", "view_of_bigger"]
-DTYPES = ["float64", "float64", "float32", "float16", "int16", "int32", "int64", "uint8", "bool", ">f8", "longdouble"]
+LAYOUTS_2 = ["2N_C", "2N_C", "2N_C", "2N_F", "N2_C", "N2_F", "list", "tuple", "strided", "negstride", "dataframe", "view_of_bigger"]
+LAYOUTS_1 = ["1d", "1d", "1d", "list", "strided", "negstride", "series_values", "view_of_bigger"]
+DTYPES = ["float64", "float64", "float64", "float64", "float64", "float32", "float16", "int16", "int32", "int64", "uint8", "bool", ">f8", "longdouble"]
 
 
 @st.composite
